@@ -171,6 +171,51 @@ def free_names_of(src: str) -> List[Tuple[str, str, int]]:
     return out
 
 
+def _holder_agreement(repo: Repo, rep: Report) -> None:
+    """R17.9: a helper installed at generation time with `setattr(<S>.attrs, <name>, fn)` is referenced in the generated
+    expression through the same spec's holder name (`{<S>.cls_attrs_name}.{<name>}` / `{<S>.self_attrs_name}.{<name>}`).
+    In mixin mode every spec's holder is the class, so a mismatch only shows through codecs: the generated code calls an
+    attribute that was installed on another AttrsHolder."""
+    from ..core.srcmodel import M_PACK, M_UNPACK, walk_no_nested
+
+    n = 0
+    for mod in (M_PACK, M_UNPACK):
+        for key, fi in sorted(repo.funcs.items()):
+            if fi.module != mod:
+                continue
+            installs = []
+            for st in walk_no_nested(fi.node):
+                if isinstance(st, ast.Call) and isinstance(st.func, ast.Name) and st.func.id == "setattr" and len(st.args) == 3 \
+                        and isinstance(st.args[0], ast.Attribute) and st.args[0].attr == "attrs" and isinstance(st.args[1], ast.Name):
+                    installs.append((ast.unparse(st.args[0].value), st.args[1].id, st.lineno))
+            for holder, name, ln in installs:
+                refs = []
+                for js in walk_no_nested(fi.node):
+                    if not isinstance(js, ast.JoinedStr):
+                        continue
+                    vals = js.values
+                    for i, v in enumerate(vals):
+                        if isinstance(v, ast.FormattedValue) and isinstance(v.value, ast.Name) and v.value.id == name and i >= 2:
+                            dot = vals[i - 1]
+                            prev = vals[i - 2]
+                            if isinstance(dot, ast.Constant) and str(dot.value).endswith(".") and isinstance(prev, ast.FormattedValue) and isinstance(prev.value, ast.Attribute) \
+                                    and prev.value.attr in ("cls_attrs_name", "self_attrs_name"):
+                                refs.append(ast.unparse(prev.value.value))
+                if not refs:
+                    rep.undecide("R17.9", f"{fi.qualname}: helper `{name}` installed on {holder}.attrs is never referenced through a holder name")
+                    continue
+                n += 1
+                bad = [r for r in refs if r != holder]
+                if bad:
+                    rep.violation("R17.9", fi.key, f"helper `{name}` is installed on `{holder}.attrs` but referenced through `{bad[0]}`'s holder",
+                                  "through a codec the two specs have different AttrsHolders (the holder is chosen by the spec's type): the generated code looks the helper up where it was "
+                                  "never installed (AttributeError, reported as InvalidFieldValue)", loc=f"{fi.loc.split(':')[0]}:{ln}")
+                else:
+                    rep.ok("R17.9", f"{fi.qualname}: `{name}` installed on and referenced through {holder}'s holder", None)
+    if n < 4:
+        rep.error(f"R17.9: only {n} generation-time helper installations found")
+
+
 def run(repo: Repo, rep: Report, tier: str) -> None:
     c = corpus_mod.explore_all(repo, tier)
     for e in c.errors:
@@ -388,6 +433,8 @@ def run(repo: Repo, rep: Report, tier: str) -> None:
     from ..core import helper_contracts as _hc
     _hc.report(repo, rep, "R17.7", _hc.type_name_identifier_contract(repo), "mashumaro.core.meta.code.builder::CodeBuilder.get_type_name_identifier")
     _hc.report(repo, rep, "R17.8", _hc.add_type_modules_contract(repo), "mashumaro.core.meta.code.builder::CodeBuilder.add_type_modules")
+    _holder_agreement(repo, rep)
+    _hc.report(repo, rep, "R17.10", _hc.forward_ref_contract(repo), "mashumaro.core.meta.code.builder::CodeBuilder.evaluate_forward_ref")
 
 def _skel(it) -> str:
     return " | ".join(l.tmpl.skeleton() for l in it.lines)
@@ -416,3 +463,6 @@ LEVEL_TEXT += _ADD2
 _ADD4 = ' R17.8: contract of add_type_modules (the module of every type, of its arguments, Literal values, TypeVar constraints and bound is registered; nothing else cuts the walk).'
 EXPLANATION += _ADD4
 LEVEL_TEXT += _ADD4
+_ADD5 = " R17.9: a helper installed with setattr(<spec>.attrs, name, fn) is referenced through the same spec's holder name. R17.10: contract of evaluate_forward_ref (module globals of the referencing type, builder attributes as locals)."
+EXPLANATION += _ADD5
+LEVEL_TEXT += _ADD5
